@@ -153,7 +153,9 @@ def run_model(lines, timeout=1800):
     shards = [lines[i::nshard] for i in range(nshard)]
     procs = []
     for sh_lines in shards:
-        p = subprocess.Popen([VMODEL], stdin=subprocess.PIPE, stdout=subprocess.PIPE,
+        # the extracted code recurses on lists: give it the stack it needs (native stack = ulimit -s)
+        p = subprocess.Popen(["bash", "-c", "ulimit -s unlimited 2>/dev/null || ulimit -s 4000000; exec " + VMODEL],
+                             stdin=subprocess.PIPE, stdout=subprocess.PIPE,
                              universal_newlines=True, env=dict(os.environ, OCAMLRUNPARAM="l=8G"))
         procs.append((p, sh_lines))
     # feed sequentially via communicate in threads
